@@ -77,6 +77,21 @@ class RecUser(CfdpUserBase):
         super().__init__(vfs)
         self.log = log
         self.side = side
+        # a user who treats the parameter objects handed to its callbacks as its own: after recording, every attribute of the object is
+        # overwritten (re-bound; objects nested inside are left alone).  What the handler does afterwards must not depend on it.
+        self.scribble = False
+        self.scribbled = 0
+
+    def _scribble(self, obj):
+        if not self.scribble:
+            return
+        for name in list(getattr(obj, "__dict__", {}) or getattr(obj, "__dataclass_fields__", {})):
+            try:
+                old = getattr(obj, name)
+                setattr(obj, name, (old + 4242) if isinstance(old, int) and not isinstance(old, bool) else None)
+                self.scribbled += 1
+            except Exception:  # noqa: BLE001  (frozen objects cannot be edited: fine)
+                pass
 
     def transaction_indication(self, p):
         self.log.add(
@@ -85,6 +100,7 @@ class RecUser(CfdpUserBase):
             tid=tid_key(p.transaction_id),
             orig=tid_key(p.originating_transaction_id),
         )
+        self._scribble(p)
 
     def eof_sent_indication(self, transaction_id):
         self.log.add("ind_eof_sent", self.side, tid=tid_key(transaction_id))
@@ -96,6 +112,7 @@ class RecUser(CfdpUserBase):
             tid=tid_key(params.transaction_id),
             fin=fin_tuple(params.finished_params),
         )
+        self._scribble(params)
 
     def metadata_recv_indication(self, params):
         msgs = None
@@ -111,6 +128,7 @@ class RecUser(CfdpUserBase):
             dest_file_name=params.dest_file_name,
             msgs=msgs,
         )
+        self._scribble(params)
 
     def file_segment_recv_indication(self, params):
         self.log.add(
@@ -120,6 +138,7 @@ class RecUser(CfdpUserBase):
             offset=params.offset,
             length=params.length,
         )
+        self._scribble(params)
 
     def report_indication(self, transaction_id, status_report):
         self.log.add("ind_report", self.side, tid=tid_key(transaction_id))
